@@ -523,6 +523,57 @@ func genC08(g *G) {
 	for i := 0; i < g.Count(8, 60); i++ {
 		g.Emit("btcsessions", itoa(1+i%4), itoa(g.Intn(3)), g.Pick([]string{"m", "1-2-77", "retry-5"}), itoa(1+g.Intn(1<<20)))
 	}
+	// Bitcoin: the per-input signatures arrive in EVERY order (all permutations for 1..3 inputs, all 24 for 4), then with nil
+	// results and repeated results interleaved, then with one input's signature missing
+	var perm func(pre []string, rest []string, f func([]string))
+	perm = func(pre, rest []string, f func([]string)) {
+		if len(rest) == 0 {
+			f(pre)
+			return
+		}
+		for i := range rest {
+			nr := append(append([]string{}, rest[:i]...), rest[i+1:]...)
+			perm(append(append([]string{}, pre...), rest[i]), nr, f)
+		}
+	}
+	for n := 1; n <= 4; n++ {
+		ids := []string{}
+		for i := 0; i < n; i++ {
+			ids = append(ids, itoa(i))
+		}
+		perm(nil, ids, func(p []string) {
+			g.Emit("btcwitness", itoa(n), joinOr(p, ","), itoa(1+g.Intn(1<<20)))
+		})
+	}
+	for i := 0; i < g.Count(30, 1500); i++ {
+		n := 2 + g.Intn(3)
+		arr := []string{}
+		for j := 0; j < n+g.Intn(4); j++ {
+			if g.Intn(5) == 0 {
+				arr = append(arr, "n")
+			} else {
+				arr = append(arr, itoa(g.Intn(n)))
+			}
+		}
+		if g.Intn(3) > 0 { // make it complete: append the missing ids in random order
+			miss := []string{}
+			for j := 0; j < n; j++ {
+				found := false
+				for _, x := range arr {
+					found = found || x == itoa(j)
+				}
+				if !found {
+					miss = append(miss, itoa(j))
+				}
+			}
+			for len(miss) > 0 {
+				k := g.Intn(len(miss))
+				arr = append(arr, miss[k])
+				miss = append(miss[:k], miss[k+1:]...)
+			}
+		}
+		g.Emit("btcwitness", itoa(n), joinOr(arr, ","), itoa(1+g.Intn(1<<20)))
+	}
 	genC08Runs(g)
 	_ = strings.Join
 }
